@@ -115,7 +115,34 @@ def run(rep, tier, seed, budget):
                                "compatible": c, "attribute": a, "table": table_model(m, table)})
         return path
 
-    plan = [("tab", n) for n in ((1, 2, 3, 4) if quick else (1, 2, 3, 4, 5))]
+    A_H = ["[C]", "[=C]", "[NH2]", "[=IH2]", "[CH3]", "[Branch1]", "[Ring1]", "[OH1]"]
+
+    def hist_level(N):
+        def path(eng, col):
+            ctx.reset()
+            bc = ctx.bc
+            A = {"C": fresh_int("aC", 0, 5), "N": fresh_int("aN", 0, 5), "I": fresh_int("aI", 0, 7), "O": 2, "?": 3}
+            B = {"C": fresh_int("bC", 0, 5), "N": fresh_int("bN", 0, 5), "I": fresh_int("bI", 0, 7), "O": 2, "?": 3}
+            comp = fresh_bool("compatible")
+            attr = fresh_bool("attribute")
+            toks = make_tokens("t", N, A_H)
+            c, a = bool(comp), bool(attr)
+            bc.set_semantic_constraints(dict(A))
+            dech.run_decoder(ctx, TokStr(toks), compatible=c, attribute=a)
+            bc.set_semantic_constraints(dict(B))
+            r = dech.run_decoder(ctx, TokStr(toks), compatible=c, attribute=a)
+            col.count(r[0])
+            col.nontrivial((r[0], str(r[1])[:60]))
+            col.sample({"flags": [c, a], "outcome_after_table_change": r[0]})
+            if r[0] == "exc":
+                from ..ctx import table_model
+                m = eng.current_model()
+                col.candidate({"prop": "C08", "kind": "decoder_total_history", "selfies": dech.concrete_selfies(m, toks),
+                               "compatible": c, "attribute": a, "table_a": table_model(m, A), "table_b": table_model(m, B)})
+        return path
+
+    plan = [("hist", n) for n in ((1, 2) if quick else (1, 2, 3))]
+    plan += [("tab", n) for n in ((1, 2, 3, 4) if quick else (1, 2, 3, 4, 5))]
     if quick:
         plan += [("tok", n) for n in (1, 2, 3)]
         plan += [("chr", n) for n in (1, 2, 3, 4)]
@@ -129,12 +156,15 @@ def run(rep, tier, seed, budget):
         name = {"tok": "M-TOK N=%d: grammar + legacy + malformed symbols, both flags free",
                 "chr": "M-CHR N=%d: decoder(str) incl. split_selfies, 16-character alphabet, both flags free",
                 "cell": "M-CHR cells N=%d: whole symbols mixed with stray brackets/dots/characters",
+                "hist": "table change N=%d: decode x under table A, set table B through the real setter, decode x again (H-bearing symbols, tables free)",
                 "tab": "M-TOK x M-TAB N=%d: grammar symbols incl. capacity-0 atoms, capacities of C, N, ? free in 0..9, both flags free"}[kind] % n
         if left < 5:
             rep.parts.append({"name": name, "complete": False, "paths": 0, "bounds": {"N": n},
                               "claim": "not started (time budget)"})
             continue
-        if kind == "tab":
+        if kind == "hist":
+            fn, bounds = hist_level(n), {"alphabet": A_H, "N_symbols": n, "tables": "A, B: C, N, I free"}
+        elif kind == "tab":
             fn, bounds = tab_level(n), {"alphabet": A_TAB, "N_symbols": n, "table": "C, N, ? free in 0..9"}
         elif kind == "tok":
             fn, bounds = tok_level(n), {"alphabet": A_TOK, "N_symbols": n}
